@@ -34,6 +34,11 @@ VAL_ALPHA = ["a", "b", "z", "0", "1", " ", "  ", "[", "]", "/", "=", "'", "\"", 
 def rand_value(rng, both_ok=False):
     n = rng.choice([0, 1, 1, 2, 3, 4, 6])
     s = "".join(rng.choice(VAL_ALPHA) for _ in range(n))
+    r = rng.random()
+    if r < 0.08:
+        s += "\\"                  # a trailing backslash: before the closing quote of the printed literal
+    elif r < 0.14:
+        s += rng.choice(["'\\", "\"\\", "\\'", "\\\""])
     if not both_ok and "'" in s and '"' in s:
         s = s.replace('"', "q")
     return s
@@ -137,7 +142,19 @@ class SchemaGen:
         cfg = config and not (not in_op and rng.random() < 0.2)
         keyless = (not cfg or in_op) and rng.random() < 0.45
         inner = set()
-        keys = [] if keyless else [self.name(inner) for _ in range(rng.choice([1, 1, 2, 2, 3]))]
+        keys = []
+        for _ in range(0 if keyless else rng.choice([1, 1, 2, 2, 3])):
+            # key names of one list are often a family: one a proper prefix of another, continued by any identifier character
+            # (the duplicate-key test of ly_path_check_predicate() compares prefixes)
+            k = None
+            if keys and rng.random() < 0.6:
+                base = rng.choice(keys)
+                cand = base + rng.choice(["-1", ".1", "_", "k", "2", "-", ".", "A", "-x"]) if rng.random() < 0.7 or len(base) < 2 \
+                    else base[:rng.randrange(1, len(base))]
+                if cand not in inner and (cand[0].isalpha() or cand[0] == "_") and not cand.lower().startswith("xml"):
+                    inner.add(cand)
+                    k = cand
+            keys.append(k or self.name(inner))
         ch = [S(self.mod, k, "leaf", config=cfg) for k in keys]
         ch += self.nodes(depth - 1, cfg, inner, count=rng.randrange(0, 3), in_op=in_op)
         if len(keys) > 1 and rng.random() < 0.5:
@@ -310,9 +327,11 @@ class InstGen:
                 o[nm] = vals
             elif n.kind == "list":
                 insts, seen = [], set()
-                for _ in range(rng.randrange(1, 4)):
+                # key values mostly from a small pool per key: instances that share some but not all of their keys
+                pools = [[self.value() for _ in range(rng.randrange(1, 4))] for _ in n.keys]
+                for _ in range(rng.randrange(1, 4 if len(n.keys) < 2 else 6)):
                     e = {}
-                    kv = tuple(self.value() for _ in n.keys)
+                    kv = tuple((rng.choice(pl) if rng.random() < 0.75 else self.value()) for pl in pools)
                     if n.keys and kv in seen:
                         continue
                     seen.add(kv)
@@ -633,7 +652,7 @@ class PathModel(Comp):
 
     def gen(self, rng, tier, scale=1.0):
         pre = []
-        for i in range(self.n(tier, 160, 6000, scale)):
+        for i in range(self.n(tier, 300, 8000, scale)):
             top, rpcs, notifs, augs, top2 = gen_modules(rng, two=(i % 4 != 0), ops=(i % 3 != 0))
             y1, y2 = yang_texts(top, rpcs, notifs, augs, top2)
             typ, doc = gen_doc(rng, top, rpcs, notifs, top2, both_prob=0.02 if i % 7 == 0 else 0.0)
@@ -650,12 +669,12 @@ class PathModel(Comp):
             roots = parse_dump(td)
             sroots = parse_dump(sd)
             nodes = list(nwalk(roots))
-            if not nodes or len(nodes) > 60:
+            if not nodes or len(nodes) > 100:
                 continue
             both = has_both(roots)
             qs = ["P", "W:11%d" % (0 if both else 1)]
             meta = [("P", None), ("W", None)]
-            per = 3 if len(nodes) < 25 else 2
+            per = 3 if len(nodes) < 25 else 2 if len(nodes) < 50 else 1
             for n in nodes:
                 p = render(segs_of(n, roots))
                 ph, vh = hexs(p), hexs(n.value)
@@ -689,21 +708,32 @@ class PathModel(Comp):
         return L
 
     def witness(self, line, model_out, impl_out):
-        """name the first query whose answers differ; when it asks about the path of an existing node, say what C15 wants"""
+        """the property itself fails on the implementation when a differing answer belongs to the path of an EXISTING node
+        and is not what C15 demands (F: exactly that node; X: LY_EEXIST, or nothing created for a default container; N: the
+        spine the model proves). Disagreements on mutated paths are failures of the tie only (no witness)."""
         f = line.split("\t")
         qs = f[7:]
         mo, io = model_out.split(" "), impl_out.split(" ")
-        meta = self.info.get(line, ([], False))[0]
+        meta, both = self.info.get(line, ([], False))
+        if both or len(io) != len(qs):
+            return None
         for k, q in enumerate(qs):
             a = mo[k] if k < len(mo) else "<none>"
-            b = io[k] if k < len(io) else "<none>"
-            if a != b:
+            b = io[k]
+            if a == b or k >= len(meta) or meta[k][1] is None:
+                continue
+            ip = meta[k][1]
+            if q[0] == "F":
+                bad = not b.endswith(":S" + ip)
+                want = "lyd_find_path() has to return that node"
+            elif q[0] == "X":
+                bad = b not in ("X:E4", "X:-:-")
+                want = "lyd_new_path() on the tree has to report LY_EEXIST"
+            else:
+                bad = True
+                want = "lyd_new_path() on an empty tree has to create the node and its ancestors: " + a[:200]
+            if bad:
                 mini = "\t".join(f[:7] + [q])
-                what = "query %s" % q[:1]
-                parts = q.split(":")
-                if len(parts) > 1 and q[0] in "FNX":
-                    what += " path %r" % unhex(parts[1])
-                if k < len(meta) and meta[k][1] is not None:
-                    what += " (the path of the node at %s)" % meta[k][1]
-                return (None, "%s: model %s, implementation %s; minimal case line: %s" % (what, a[:300], b[:300], mini[:4000]))
+                return (None, "path %r of the node at %s: %s; implementation answers %s; minimal case line: %s"
+                        % (unhex(q.split(":")[1]), ip, want, b[:300], mini[:6000]))
         return None
